@@ -71,7 +71,7 @@ def _run(case, mode: str, src: str, data: dict):
         p = oc.outcome_of(lambda: env.from_string(src, name="main"))
         r = None
         if p[0] == "ok":
-            r = oc.outcome_of(lambda: p[1].render(**data))
+            r = oc.render([case.get('api'), src], lambda: p[1], **data)
     warns = [w for w in rec if issubclass(w.category, LiquidWarning)]
     return p, r, warns, calls
 
